@@ -395,7 +395,7 @@ func main() {
 	nc := run.N(64, 600)
 	tssworld.RunCases(run, "c03", nc, chainCfg, func(h *tssworld.Hist) []tssworld.Monitor {
 		// the lifecycle monitor supplies "once all assigned members have submitted, the signature is published (in that block)"
-			return []tssworld.Monitor{tssworld.NewSigMonitor(), tssworld.NewSigningMonitor(h)}
+		return []tssworld.Monitor{tssworld.NewSigMonitor(), tssworld.NewSigningMonitor(h)}
 	}, nil)
 	for _, c := range []string{"lib-cases-with-id-above-20", "lib-committee-larger-than-threshold", "lagrange-pairs-compared", "group-signatures-verified",
 		"tx:sig:honest:ok", "tx:sig:corrupt-z:rejected", "tx:sig:corrupt-R:rejected", "tx:sig:corrupt-memberid:rejected",
